@@ -204,6 +204,8 @@ def run_schedule(scn: Scenario, devs: dict, want_where=False, timeout=20.0) -> O
         ACTOR.set(i)
         try:
             for uid in scn.progs[i]:
+                for _ in range(scn.gaps[i] if i < len(scn.gaps) else 0):
+                    await asyncio.sleep(0)
                 h.mapper.set_sending(i, uid)
                 try:
                     if uid in scn.split:
